@@ -1,6 +1,7 @@
 package main
 
 import (
+	"go/constant"
 	"fmt"
 	"go/ast"
 	"go/token"
@@ -336,34 +337,208 @@ func (sd *scopeSide) walk(fr scopeFrame, out *scopeClass, ord *ordinal, depth in
 	})
 }
 
-// flagPruner returns a skip predicate that removes the branch of `if flag` /
-// `if !flag` statements not taken when the bool parameter has the given value.
+// flagPruner returns a skip predicate that removes what cannot run when the
+// bool parameter has the given value (see condPruner).
 func flagPruner(info *types.Info, body *ast.BlockStmt, flag types.Object, val bool) func(n ast.Node) bool {
-	dead := map[ast.Node]bool{}
 	if flag == nil {
 		return func(n ast.Node) bool { return false }
 	}
+	return condPruner(info, body, map[types.Object]bool{flag: val})
+}
+
+// condPruner returns a skip predicate for the statements of body that cannot
+// run when the given bool variables have the given values: conditions are
+// evaluated three-valued over !, &&, || and the known variables; the branch of
+// an `if` (or the clauses of a tagless switch) that is not taken is dead, and
+// so is whatever follows, in the same block, an `if` whose taken branch always
+// ends in return / continue / break.  The variables must not be assigned in
+// body (checked: otherwise nothing is pruned).
+func condPruner(info *types.Info, body *ast.BlockStmt, vals map[types.Object]bool) func(n ast.Node) bool {
+	dead := map[ast.Node]bool{}
+	assigned := false
 	ast.Inspect(body, func(n ast.Node) bool {
-		is, ok := n.(*ast.IfStmt)
-		if !ok {
-			return true
-		}
-		cond := ast.Unparen(is.Cond)
-		neg := false
-		if ue, ok := cond.(*ast.UnaryExpr); ok && ue.Op == token.NOT {
-			neg = true
-			cond = ast.Unparen(ue.X)
-		}
-		if identObj(info, cond) != flag {
-			return true
-		}
-		taken := val != neg
-		if taken {
-			if is.Else != nil {
-				dead[is.Else] = true
+		switch x := n.(type) {
+		case *ast.AssignStmt:
+			for _, l := range x.Lhs {
+				if _, ok := vals[identObj(info, l)]; ok && identObj(info, l) != nil {
+					assigned = true
+				}
 			}
-		} else {
-			dead[is.Body] = true
+		case *ast.UnaryExpr:
+			if x.Op == token.AND {
+				if _, ok := vals[identObj(info, x.X)]; ok && identObj(info, x.X) != nil {
+					assigned = true
+				}
+			}
+		}
+		return true
+	})
+	if assigned {
+		return func(n ast.Node) bool { return false }
+	}
+	// 1 true, 0 false, -1 unknown
+	var eval func(e ast.Expr) int
+	eval = func(e ast.Expr) int {
+		e = ast.Unparen(e)
+		switch x := e.(type) {
+		case *ast.Ident:
+			if o := identObj(info, x); o != nil {
+				if v, ok := vals[o]; ok {
+					if v {
+						return 1
+					}
+					return 0
+				}
+			}
+			if tv, ok := info.Types[x]; ok && tv.Value != nil && tv.Value.Kind() == constant.Bool {
+				if constant.BoolVal(tv.Value) {
+					return 1
+				}
+				return 0
+			}
+		case *ast.UnaryExpr:
+			if x.Op == token.NOT {
+				switch eval(x.X) {
+				case 1:
+					return 0
+				case 0:
+					return 1
+				}
+			}
+		case *ast.BinaryExpr:
+			l, r := eval(x.X), eval(x.Y)
+			switch x.Op {
+			case token.LAND:
+				if l == 0 || r == 0 {
+					return 0
+				}
+				if l == 1 && r == 1 {
+					return 1
+				}
+			case token.LOR:
+				if l == 1 || r == 1 {
+					return 1
+				}
+				if l == 0 && r == 0 {
+					return 0
+				}
+			}
+		}
+		return -1
+	}
+	// does the block always leave the enclosing statement list?
+	var leaves func(b *ast.BlockStmt) bool
+	leaves = func(b *ast.BlockStmt) bool {
+		if b == nil || len(b.List) == 0 {
+			return false
+		}
+		switch x := b.List[len(b.List)-1].(type) {
+		case *ast.ReturnStmt:
+			return true
+		case *ast.BranchStmt:
+			return x.Tok == token.CONTINUE || x.Tok == token.BREAK || x.Tok == token.GOTO
+		}
+		return false
+	}
+	var walkList func(list []ast.Stmt)
+	var walkStmt func(st ast.Stmt) (leavesAlways bool)
+	walkStmt = func(st ast.Stmt) bool {
+		switch x := st.(type) {
+		case *ast.IfStmt:
+			switch eval(x.Cond) {
+			case 1:
+				if x.Else != nil {
+					dead[x.Else] = true
+				}
+				walkList(x.Body.List)
+				return leaves(x.Body)
+			case 0:
+				dead[x.Body] = true
+				if x.Else != nil {
+					return walkStmt(x.Else)
+				}
+				return false
+			default:
+				walkList(x.Body.List)
+				if x.Else != nil {
+					walkStmt(x.Else)
+				}
+			}
+		case *ast.BlockStmt:
+			walkList(x.List)
+			return leaves(x)
+		case *ast.SwitchStmt:
+			if x.Tag == nil && x.Init == nil {
+				decided := false
+				for _, cl := range x.Body.List {
+					cc := cl.(*ast.CaseClause)
+					if decided {
+						dead[cc] = true
+						continue
+					}
+					if cc.List == nil {
+						walkList(cc.Body)
+						continue
+					}
+					all0, any1 := true, false
+					for _, e := range cc.List {
+						switch eval(e) {
+						case 1:
+							any1, all0 = true, false
+						case -1:
+							all0 = false
+						}
+					}
+					switch {
+					case all0:
+						dead[cc] = true
+					case any1:
+						decided = true
+						walkList(cc.Body)
+					default:
+						walkList(cc.Body)
+					}
+				}
+				// a default clause after a decided case is dead too (handled by `decided`)
+				return false
+			}
+			for _, cl := range x.Body.List {
+				walkList(cl.(*ast.CaseClause).Body)
+			}
+		case *ast.ForStmt:
+			walkList(x.Body.List)
+		case *ast.RangeStmt:
+			walkList(x.Body.List)
+		case *ast.LabeledStmt:
+			return walkStmt(x.Stmt)
+		case *ast.TypeSwitchStmt:
+			for _, cl := range x.Body.List {
+				walkList(cl.(*ast.CaseClause).Body)
+			}
+		case *ast.SelectStmt:
+			for _, cl := range x.Body.List {
+				walkList(cl.(*ast.CommClause).Body)
+			}
+		}
+		return false
+	}
+	walkList = func(list []ast.Stmt) {
+		gone := false
+		for _, st := range list {
+			if gone {
+				dead[st] = true
+				continue
+			}
+			if walkStmt(st) {
+				gone = true
+			}
+		}
+	}
+	walkList(body.List)
+	// function literals bound in body are walked too (closures are part of the function's flow)
+	ast.Inspect(body, func(n ast.Node) bool {
+		if lit, ok := n.(*ast.FuncLit); ok {
+			walkList(lit.Body.List)
 		}
 		return true
 	})
